@@ -8,7 +8,7 @@ import (
 	"strconv"
 	"strings"
 
-	_ "verifmc/checks"
+	"verifmc/checks"
 	"verifmc/fw"
 )
 
@@ -25,6 +25,9 @@ func main() {
 		}
 	case "run":
 		os.Exit(fw.RunMain(os.Args[2], os.Args[3]))
+	case "racepass":
+		n, _ := strconv.Atoi(os.Args[2])
+		os.Exit(checks.RaceMain(n))
 	case "replay":
 		os.Exit(fw.ReplayMain(os.Args[2]))
 	case "worker":
